@@ -41,7 +41,8 @@ def run_case(rs, ctx):
     sh = gen.Shadow(cfg, nf)
     hist = gen.gen_ops(rs, cfg, sh, 1, ["fit"], train_rows=(5, 20)) + \
         gen.gen_ops(rs, cfg, sh, int(rs.integers(0, 4)), ["partial_fit", "add_arm", "remove_arm", "warm_start"])
-    queries = gen.gen_ops(rs, cfg, sh, int(rs.integers(1, 7)), ["predict", "predict_expectations"], sizes=(1, 2, 3, 5, 8))
+    queries = gen.gen_ops(rs, cfg, sh, int(rs.integers(1, 7)), ["predict", "predict_expectations"],
+                          sizes=(1, 2, 3, 5, 8) if rs.integers(3) else (1, 3, 40, 130))
     cont = gen.gen_continuation(rs, cfg, sh)
     for o in cont + queries:
         if o["op"] in ("predict", "predict_expectations") and o.get("X") is not None and gen.is_ctx(cfg) and rs.integers(3) == 0:
